@@ -357,6 +357,42 @@ pub fn c01(ctx: &mut Ctx) -> Option<Failure> {
     for _ in 0..3000 {
         asts.push(random_ast(ctx, 3));
     }
+    // a term with more than 255 derivative classes, queried in two orders (the answers must not depend on what the
+    // derivative table already holds)
+    for reversed in [false, true] {
+        let r = ctx.case(|| {
+            watch(format!("union of 300 one-character strings chr(1000+2i), queries {}", if reversed { "reversed" } else { "in order" }));
+            let mut m = ReManager::new();
+            let letter = |i: u32| 1000 + 2 * i;
+            let chars: Vec<RegLan> = (0..300).map(|i| m.char(letter(i))).collect();
+            let e = m.union_list(chars);
+            let ne = m.complement(e);
+            let x = 'x' as u32;
+            let mut qs: Vec<(bool, Vec<u32>)> = Vec::new();
+            for i in [0u32, 1, 100, 254, 255, 256, 299] {
+                let c = letter(i);
+                for w in [vec![c], vec![c, x], vec![c, x, x], vec![c + 1], vec![x], vec![x, x], vec![]] {
+                    qs.push((false, w.clone()));
+                    qs.push((true, w));
+                }
+            }
+            if reversed {
+                qs.reverse();
+            }
+            for (on_comp, w) in qs {
+                let in_e = w.len() == 1 && w[0] >= 1000 && w[0] < 1600 && (w[0] - 1000) % 2 == 0;
+                let exp = if on_comp { !in_e } else { in_e };
+                let got = m.str_in_re(&sm(&w), if on_comp { ne } else { e });
+                if got != exp {
+                    return fail("ReManager::str_in_re(300 classes)", format!("union of chr(1000+2i), i<300; complement={} word={:?} queries {}", on_comp, w, if reversed { "reversed" } else { "in order" }), format!("{}", exp), format!("{}", got));
+                }
+            }
+            None
+        });
+        if r.is_some() {
+            return r;
+        }
+    }
     let mut shared = ReManager::new();
     for (n, ast) in asts.into_iter().enumerate() {
         if ctx.out_of_time() {
@@ -385,6 +421,10 @@ pub fn c01(ctx: &mut Ctx) -> Option<Failure> {
             if n % 4 == 0 {
                 use aws_smt_strings::smt_regular_expressions as sre;
                 let ew = bw(&ast);
+                // hash-consing holds for the wrappers too: the same construction is the same object
+                if !std::ptr::eq(ew, bw(&ast)) {
+                    return fail("smt_regular_expressions wrappers(hash-consing)", show(&ast), "identical term".into(), "different object".into());
+                }
                 for w in &ws {
                     let exp = matches(&ast, w);
                     let got = sre::str_in_re(&sm(w), ew);
